@@ -35,6 +35,14 @@ fn run(r: &mut Run) -> Result<(), MachineryError> {
             check_text(&text, cx);
         }
     })?;
+    r.range("C17/representative-pairs", &format!("{}; each pair (x,y) in the texts \"xy yx\", \"ax yb xy\" x widths 0..=display width+2, MAX", reps::pair_desc(t)), reps::pair_space(t), move |i, cx| {
+        let (x, y) = reps::pair_at(t, i);
+        cx.seq = idx_seq(i);
+        for text in [format!("{x}{y} {y}{x}"), format!("a{x} {y}b {x}{y}")] {
+            cx.set_input(&text);
+            check_text(&text, cx);
+        }
+    })?;
     scale::text_scale(r, "C17/long-paragraphs", "C17")
 }
 
